@@ -121,6 +121,18 @@ Definition soc_update_scaling (s z : list T) : option soc_scaling :=
     if soc_is_sparse (length s) then Some (soc_sparse_data w0n w1n w1sq) else None in
   Some (mkScaling w lam eta sparse).
 
+(** set_identity_scaling: w = e, η = 1, and for the sparse representation d = 1/2,
+    u = (1/√2, 0, …), v = 0; λ is left as it is *)
+Definition soc_set_identity_scaling (prev : soc_scaling) : soc_scaling :=
+  let n := length (sc_w prev) in
+  mkScaling (match n with Datatypes.O => [] | S k => on :: repeat zr k end)
+            (sc_lam prev) on
+            (match sc_sparse prev with
+             | Some _ => Some (mkSparse (match n with Datatypes.O => [] | S k => sqrt O (on / two) :: repeat zr k end)
+                                        (repeat zr n) (on / two))
+             | None => None
+             end).
+
 (** _soc_mul_W_inner *)
 Definition soc_mul_W (w : list T) (eta : T) (x : list T) (a b : T) (y : list T) : list T :=
   let zeta := vdot O (tl w) (tl x) in
